@@ -67,6 +67,17 @@ func (g *sdocGen) selset(parent string, depth int) []*snode {
 				continue
 			}
 			f := rng.Pick(g.r, pt.Fields)
+			if g.r.Chance(1, 3) { // prefer fields of an abstract type: object type resolution
+				var abs []fieldDesc
+				for _, c := range pt.Fields {
+					if k := g.d.kindOf(c.Type.Name); k == "interface" || k == "union" {
+						abs = append(abs, c)
+					}
+				}
+				if len(abs) > 0 {
+					f = rng.Pick(g.r, abs)
+				}
+			}
 			nd := &snode{kind: 'f', key: g.fresh("k"), name: f.Name}
 			comp := isComposite(g.d.kindOf(f.Type.Name))
 			if !g.tidy && g.r.Chance(1, 40) {
